@@ -108,6 +108,8 @@ def k_parsers(p0: int, v0: str, p1: int, c1: int, p2: int, c2: int, pos: int) ->
             if a is not None or b is not None:
                 return rt.fail('C20:path-found-without-Path-line', repr(content))
         else:
+            if (not a_args and a is not None) or (not c_args and got_paths):
+                return rt.not_applicable('unquote-seam-not-used', 'content %r: a path (%r / %r) came back without the recorded un-quoter being called' % (content, a, got_paths))
             if a_args != [want_path] or a != '<' + want_path + '>':
                 return rt.fail('C20:list-rm-path-value', 'content %r: parse_path unquotes %r, first Path value is %r' % (content, a_args, want_path))
             if b_args != [want_path]:
@@ -126,6 +128,10 @@ def k_parsers(p0: int, v0: str, p1: int, c1: int, p2: int, c2: int, pos: int) ->
                 return rt.fail('C20:date-found-without-line', repr(content))
         else:
             fmt = 'DeletionDate=%Y-%m-%dT%H:%M:%S'
+            if not s1 or not s2:
+                # a DeletionDate line exists but the recorded strptime was not reached by one of the parsers: either the line
+                # is ignored (the W obligation shows that) or the date is parsed somewhere else now - this kernel cannot tell
+                return rt.not_applicable('strptime-seam-not-used', 'content %r: strptime calls %r and %r, results %r and %r' % (content, s1, s2, d1, d2))
             if s1 != [(want_date, fmt)] or s2 != [(want_date, fmt)]:
                 return rt.fail('C20:date-line-differs', 'content %r: strptime got %r and %r, first DeletionDate line is %r' % (content, s1, s2, want_date))
             bad = want_date.endswith('!')
@@ -310,8 +316,8 @@ def obligations(tier):
         CH('K_parsers_agree_all_contents', MOD, 'k_parsers', timeout=600 if tier == 'quick' else 2400, engine='K', regime='traced',
            encodes=['parse_path', 'parse_original_location', 'ParseTrashInfo.parse_trashinfo', 'parse_deletion_date', 'maybe_parse_deletion_date'],
            stubs=['unquote -> recorder', 'datetime.strptime -> recorder'],
-           bounds='3 lines in every order: one = one of 9 prefixes + ANY value of len<=2 without newline, two = one of 4 prefixes + one of %d values' % (2 if tier == 'quick' else 4),
-           partitions=[(a, b, 2 if tier == 'quick' else 4) for a in range(9) for b in range(3)]),
+           bounds='3 lines in every order: one = one of 9 prefixes + ANY value of len<=2 without newline, two = one of 4 prefixes + one of %d values' % (1 if tier == 'quick' else 4),
+           partitions=[(a, b, 1 if tier == 'quick' else 4) for a in range(9) for b in range(3)]),
         CH('W_dirkind_x_shape', MOD, 'w_main', timeout=600, engine='W', regime='selector',
            encodes=K.LIST_FUNCS + K.RESTORE_FUNCS + K.RM_FUNCS + K.EMPTY_FUNCS, stubs=K.STUBS,
            bounds='6 kinds of trash directory (incl. --trash-dir through a symlink on another volume) x 15 content shapes; per case 8 command runs'),
